@@ -108,6 +108,7 @@ class Model {
   bool has_next_cfg = false;
   Limits lim_next;
   std::set<std::string> activatable_next;
+  std::map<std::string, std::set<std::string>> act_env;   // every value a client ever stored per activation-environment variable (C19)
   int dying_addressee = -1;           // set while the NameLost for a departing connection's unique name is emitted
   int cfg_gen = 0;
   bool cfg_unspecified = false;       // between a half-done reload (listed finding) and its retry
